@@ -191,8 +191,8 @@ def r03_1(ctx) -> None:
                 outer = u
                 while outer.parent is not None:
                     outer = outer.parent  # nested wrappers are covered by their enclosing definition
-                contract = BY_CONTRACT.get(outer.short) or (
-                    BY_CONTRACT.get(f"{outer.module.short}.{outer.cls.name}") if outer.cls is not None else None)
+                contract = BY_CONTRACT.get(ctx.pkg.canonical(outer)) or (
+                    BY_CONTRACT.get(ctx.pkg.canonical_class(outer.cls)) if outer.cls is not None else None)
                 if contract:
                     ctx.ok("R03.1", u, f"raw call `{norm(call.func)}(...)` is by contract: {contract}")
                 else:
@@ -307,13 +307,13 @@ def r03_2(ctx) -> None:
             if n.kind in ("siter", "aiter"):
                 v = ctx.vals.expr(u, n.info.get("iter"), n)
                 raw = [a for a in v if a[0] == "user" and a[1] in srcs]
-                if raw and u.short not in DIRECT_ITERATION_OK:
+                if raw and ctx.pkg.canonical(u) not in DIRECT_ITERATION_OK:
                     bad += 1
                     kind = "async for" if n.kind == "aiter" else "for"
                     ctx.fail("R03.2", u, f"{kind} ... in {norm(n.info.get('iter'))}",
                              f"iterable parameter is iterated directly with `{kind}`: only one of the sync / async "
                              f"protocols is supported instead of both", node=n)
-            if n.kind == "call" and u.short not in DIRECT_ITERATION_OK and _builtin_consumer(ctx, u, n):
+            if n.kind == "call" and ctx.pkg.canonical(u) not in DIRECT_ITERATION_OK and _builtin_consumer(ctx, u, n):
                 args = [a.value if isinstance(a, ast.Starred) else a for a in n.ast.args]  # type: ignore[union-attr]
                 if any(any(x[0] == "user" and x[1] in srcs for x in ctx.vals.expr(u, a, n)) for a in args):
                     bad += 1
@@ -323,7 +323,7 @@ def r03_2(ctx) -> None:
             if isinstance(c, ast.Call) and norm(c.func) in ("isinstance", "issubclass") and len(c.args) == 2 \
                     and isinstance(c.args[0], (ast.Name, ast.NamedExpr)):
                 nm = c.args[0].id if isinstance(c.args[0], ast.Name) else norm(c.args[0].target)
-                if nm not in iter_params or u.short in DIRECT_ITERATION_OK:
+                if nm not in iter_params or ctx.pkg.canonical(u) in DIRECT_ITERATION_OK:
                     continue
                 classes = c.args[1].elts if isinstance(c.args[1], ast.Tuple) else [c.args[1]]
                 sync = [norm(k) for k in classes if norm(k).split(".")[-1] in SYNC_ABCS]
